@@ -82,13 +82,22 @@ fn gen_steps(rng: &mut Rng, ctx: &GenCtx, n_keys: usize, n_steps: usize, plan_ki
     // half of the capacity runs acknowledge every write before the next operation (no bursts)
     let no_bursts = plan_kind == "C10" && rng.chance(1, 2);
     let mut next_val = 0u32;
+    let mut used: Vec<(usize, u32)> = vec![];
     let mut steps = Vec::with_capacity(n_steps + n_keys + 2);
     for _ in 0..n_steps {
         let key = rng.usize_below(n_keys);
         let s = match rng.weighted(&weights) {
             0 => {
-                next_val += 1;
-                Step::Put { key, val: next_val }
+                // mostly a fresh value; sometimes an earlier value of this key is put again
+                // (same bytes as an older version: exercises "is this already stored" short cuts)
+                let earlier: Vec<u32> = used.iter().filter(|(k, _)| *k == key).map(|(_, v)| *v).collect();
+                if !earlier.is_empty() && rng.chance(1, 5) {
+                    Step::Put { key, val: *rng.pick(&earlier) }
+                } else {
+                    next_val += 1;
+                    used.push((key, next_val));
+                    Step::Put { key, val: next_val }
+                }
             }
             1 => Step::Remove { key },
             2 => Step::Get { key },
